@@ -128,6 +128,7 @@ class Model:
         if inline is None:
             inline = os.environ.get('PSA_NO_INLINE') != '1'
         self.inline_stats = {}
+        self.renamed_anchors = {}
         self.modules: dict[str, ModInfo] = {}
         self.classes: dict[str, ClassInfo] = {}
         self.funcs: dict[str, FuncInfo] = {}
@@ -146,6 +147,9 @@ class Model:
             except SyntaxError as exc:
                 raise AnalysisError(f"{rel} does not parse: {exc}") from exc
             self.modules[rel] = mod
+        if inline:
+            from .inline import canonical_names
+            self.renamed_anchors = canonical_names([m.tree for m in self.modules.values()])
         for rel, mod in self.modules.items():
             if inline:
                 from .inline import expand_module
